@@ -2,7 +2,7 @@
 
 OS_TRUST = "foreign mmap/mprotect/madvise/munmap (sys::unix::UnixVirtualMemory) replaced by a contract stub: commit may fail, nothing else observable"
 KANI_TRUST = "Kani 0.68 MIR->goto translation and CBMC 6.11 (bit-precise, machine integers, real pointer arithmetic)"
-VERUS_TRUST = "Verus 0.2026.09.13 + Z3; extraction rewrites R1-R9 listed in DESIGN.md section 2.2 (syntactic; echoed per unit in coverage.rewrites)"
+VERUS_TRUST = "Verus 0.2026.09.13 + Z3; extraction rewrites R1-R13 listed in DESIGN.md sections 0.3 and 2.2 (syntactic; echoed per unit in coverage.rewrites)"
 
 PROPS = {
     "C11": {
